@@ -89,6 +89,11 @@ type c29ChanModel struct {
 	idx         map[[2]string]int // (from, clientNo) -> index into log
 	inflight    int
 	maxInflight int
+	// held is non-nil while one AppendBatch call of this channel is held back by
+	// the reorder mode; it is closed when ANOTHER call of the channel finishes
+	// (so the two calls return out of order) or by ReleaseLoneHolds.
+	held     chan struct{}
+	heldCall int
 }
 
 // c29Faults are per-call probabilities in permille.
@@ -130,6 +135,56 @@ type c29Model struct {
 	bad      []string // malformed requests observed (reported by the oracle)
 
 	ctxCancelled atomic.Int64 // AppendBatch calls whose context was cancelled while waiting
+
+	// reorder (guarded by mu) is the permille of calls held back until a later
+	// same-channel call has returned; only meaningful with more than one
+	// in-flight batch per channel. 0 = off.
+	reorder int
+}
+
+// SetReorder arms (permille > 0) or disarms (0) the out-of-order mode.
+// Disarming releases every held call that has no in-flight companion; a held
+// call with a companion is released by the companion's return.
+func (m *c29Model) SetReorder(permille int) {
+	m.mu.Lock()
+	m.reorder = permille
+	if permille == 0 {
+		for _, ch := range m.chans {
+			if ch.held != nil && ch.inflight <= 1 {
+				close(ch.held)
+				ch.held = nil
+				m.cnt["append.reorder.lone_hold_released"]++
+			}
+		}
+	}
+	m.mu.Unlock()
+}
+
+// ReorderSnapshot returns the number of channels with a held call and, of
+// those, the number with at least one companion call in flight.
+func (m *c29Model) ReorderSnapshot() (held, pairs int) {
+	m.mu.Lock()
+	defer m.mu.Unlock()
+	for _, ch := range m.chans {
+		if ch.held != nil {
+			held++
+			if ch.inflight >= 2 {
+				pairs++
+			}
+		}
+	}
+	return held, pairs
+}
+
+// InflightCalls returns the number of AppendBatch calls currently executing.
+func (m *c29Model) InflightCalls() int {
+	m.mu.Lock()
+	defer m.mu.Unlock()
+	n := 0
+	for _, ch := range m.chans {
+		n += ch.inflight
+	}
+	return n
 }
 
 func newC29Model(clock *verifkit.Clock, rng *rand.Rand, faults c29Faults) *c29Model {
@@ -204,6 +259,13 @@ func (m *c29Model) AppendBatch(ctx context.Context, req ca.AppendBatchRequest) (
 			victim = 1 + m.rng.IntN(len(req.Messages)-1) // keep [0,victim)
 		}
 	}
+	var heldC chan struct{}
+	if m.reorder > 0 && ch.held == nil && m.rng.IntN(1000) < m.reorder {
+		ch.held = make(chan struct{})
+		ch.heldCall = callNo
+		heldC = ch.held
+		m.cnt["append.reorder.calls_held"]++
+	}
 	seenInReq := map[string]struct{}{}
 	for _, msg := range req.Messages {
 		p := string(msg.Payload)
@@ -225,6 +287,15 @@ func (m *c29Model) AppendBatch(ctx context.Context, req ca.AppendBatchRequest) (
 	finish := func() {
 		m.mu.Lock()
 		ch.inflight--
+		if ch.held != nil && ch.heldCall != callNo {
+			// a later same-channel call returns first: out-of-order pair
+			close(ch.held)
+			ch.held = nil
+			m.cnt["append.reorder.out_of_order_pairs"]++
+		} else if ch.held != nil && ch.heldCall == callNo {
+			close(ch.held) // the held call itself ends (context cancelled)
+			ch.held = nil
+		}
 		m.mu.Unlock()
 	}
 
@@ -237,6 +308,15 @@ func (m *c29Model) AppendBatch(ctx context.Context, req ca.AppendBatchRequest) (
 		case <-ctx.Done():
 			// A real appender honours its context: cancelling the runtime
 			// context while work is admitted surfaces as a cancelled append.
+			m.ctxCancelled.Add(1)
+			finish()
+			return ca.AppendBatchResult{}, ctx.Err()
+		}
+	}
+	if heldC != nil {
+		select {
+		case <-heldC:
+		case <-ctx.Done():
 			m.ctxCancelled.Add(1)
 			finish()
 			return ca.AppendBatchResult{}, ctx.Err()
